@@ -55,10 +55,14 @@ std::string match_frames(const std::vector<RecvFrame>& got, const std::vector<Ex
   }
   for (size_t i = 0; i < got.size(); i++) if (!used[i]) return "unexpected frame: " + frame_brief(got[i].msg);
   if (reply_last_serial) {
+    // [property C04] signals the bus sends because of this request precede the reply (copies of unicast traffic that an
+    // eavesdropping requester sees are not signals of the request and may follow)
+    bool seen_reply = false;
     for (size_t i = 0; i < got.size(); i++) {
       const Msg& m = got[i].msg;
-      if ((m.type == T_RETURN || m.type == T_ERROR) && m.fu32(F_REPLY_SERIAL) == reply_last_serial && i + 1 != got.size())
-        return "the reply is not the last frame: signals addressed to the requester must precede its reply";
+      if ((m.type == T_RETURN || m.type == T_ERROR) && m.fu32(F_REPLY_SERIAL) == reply_last_serial && m.fstr(F_SENDER) == BUS_NAME) seen_reply = true;
+      else if (seen_reply && m.type == T_SIGNAL && m.fstr(F_SENDER) == BUS_NAME)
+        return "a signal from the bus follows the reply: signals caused by a request must precede its reply";
     }
   }
   return "";
